@@ -101,6 +101,23 @@ impl CommitProof {
             dview(r.1@) == gather(dview(leaves@), self@.indices),
     { unimplemented!() }
 }
+impl CommitProof {
+    /// crates/core/src/commit/proof.rs `CommitProof::root`; tree unit label [root_is_field]
+    #[verifier::external_body]
+    pub fn root(&self) -> (r: &CommitHash)
+        ensures *r == self.root,
+    { unimplemented!() }
+    /// crates/core/src/commit/proof.rs `CommitProof::len`; tree unit label [len_is_field]
+    #[verifier::external_body]
+    pub fn len(&self) -> (r: usize)
+        ensures r == self.length,
+    { unimplemented!() }
+    /// crates/core/src/commit/proof.rs `CommitProof::is_empty`; tree unit label [is_empty_is_len_zero]
+    #[verifier::external_body]
+    pub fn is_empty(&self) -> (r: bool)
+        ensures r == (self.length == 0),
+    { unimplemented!() }
+}
 impl Clone for CommitProof {
     /// crates/core/src/commit/proof.rs `impl Clone for CommitProof`; tree unit label [clone_keeps_view]
     #[verifier::external_body]
@@ -154,6 +171,21 @@ impl CommitTree {
             r.is_some() <==> self.lv().len() > 0,
             r.is_some() ==> dview(r.unwrap()@) == self.lv(),
     { unimplemented!() }
+    /// tree unit [root_none_iff_empty], [root_is_merkle_root]
+    #[verifier::external_body]
+    pub fn root(&self) -> (r: Option<CommitHash>)
+        ensures
+            r.is_none() <==> self.lv().len() == 0,
+            r.is_some() ==> merkle_root(self.lv()) == Some(r.unwrap().0@),
+    { unimplemented!() }
+    /// tree unit [insert_pushes_pending] (the `&mut Self` the real function returns for
+    /// chaining is discarded, as for `append`)
+    #[verifier::external_body]
+    pub fn insert(&mut self, hash: TreeHash)
+        ensures
+            final(self).pending() == old(self).pending().push(hash@),
+            final(self).lv() == old(self).lv(),
+    { unimplemented!() }
     /// tree unit [proof_err_iff_empty], [proof_fields], [proof_of_one_index]
     #[verifier::external_body]
     pub fn proof(&self, leaf_indices: &[usize]) -> (r: core::result::Result<CommitProof, CoreError>)
@@ -172,25 +204,58 @@ impl CommitTree {
 }
 
 // ---- std helpers (R12: exact std meaning) -----------------------------------------
-/// R12: `$v.sort_by(|a, b| a.time().cmp(b.time()))` — `slice::sort_by` is a STABLE
-/// sort (std docs: "This sort is stable"); the comparator is `Ord for UtcDateTime`
-/// (derived: `Ord for OffsetDateTime`, the order of instants).  Meaning: the result
-/// is a permutation of the input (multiset equality), sorted by time, and rows with
-/// equal time keep their relative order.
+/// `Ord for UtcDateTime` (crates/core/src/date_time.rs: `#[derive(Ord, PartialOrd, ..)]` on
+/// the newtype of `OffsetDateTime`; time-0.3 `offset_date_time.rs` compares the UTC instants)
+/// as the `Ordering` it answers; agrees with `time_le`/`time_lt` of prelude/merge_spec.rs
+pub open spec fn time_ord(a: Instant, b: Instant) -> core::cmp::Ordering {
+    if time_lt(a, b) { core::cmp::Ordering::Less } else if a == b { core::cmp::Ordering::Equal } else { core::cmp::Ordering::Greater }
+}
+impl UtcDateTime {
+    /// derived `Ord::cmp` (stand-in as an inherent method: the derive is dropped by R6)
+    #[verifier::external_body]
+    pub fn cmp(&self, other: &UtcDateTime) -> (o: core::cmp::Ordering)
+        ensures o == time_ord(self.0@, other.0@),
+    { unimplemented!() }
+    /// derived `PartialOrd::partial_cmp` (`Some(self.cmp(other))`)
+    #[verifier::external_body]
+    pub fn partial_cmp(&self, other: &UtcDateTime) -> (o: Option<core::cmp::Ordering>)
+        ensures o == Some(time_ord(self.0@, other.0@)),
+    { unimplemented!() }
+}
+/// R12: `$v.sort_by($cmp)` — `slice::sort_by` is a STABLE sort (std docs: "This sort is
+/// stable").  The comparator `$cmp` stays the repository's text: the unit wraps it in a
+/// closure whose `ensures` says that it answers the order of the rows' instants
+/// (`time_ord`), and Verus checks the real closure body against that.  Meaning under that
+/// hypothesis: the result is a permutation of the input (multiset equality), sorted by
+/// time, and rows with equal time keep their relative order.
 #[verifier::external_body]
-pub fn vsort_by_time(v: &mut Vec<EventRecord>)
+pub fn vsort_by<F: Fn(&EventRecord, &EventRecord) -> core::cmp::Ordering>(v: &mut Vec<EventRecord>, f: F)
+    requires
+        forall|a: &EventRecord, b: &EventRecord| #[trigger] f.requires((a, b)),
+        forall|a: &EventRecord, b: &EventRecord, o: core::cmp::Ordering| #[trigger] f.ensures((a, b), o) ==> o == time_ord(a@.time, b@.time),
     ensures
         rv(final(v)@).to_multiset() == rv(old(v)@).to_multiset(),
         time_sorted(rv(final(v)@)),
         is_stable_time_sort_of(rv(final(v)@), rv(old(v)@)),
 { unimplemented!() }
-/// R12: `$a.extend($b.into_iter().filter(|r| !$set.contains(r.commit())))` with
-/// `$b: Vec<EventRecord>`, `$set: HashSet<CommitHash>` — `Iterator::filter` keeps the
-/// items on which the closure answers true, in order; `Vec::extend` appends them in
-/// order: `$a` gains the rows of `$b` whose commit is not in the set
+/// R12: `$b.into_iter().filter($p)` with `$b: Vec<EventRecord>`, collected by the
+/// `Vec::extend` it is handed to — `Iterator::filter` keeps the items on which the
+/// closure answers true, in order.  The predicate `$p` stays the repository's text: the
+/// unit wraps it in a closure whose `ensures` says that it answers "the row's commit is
+/// not in `cs`" (Verus checks the real body against that); under that hypothesis the
+/// kept rows are `drop_commits(b, cs)`.
 #[verifier::external_body]
-pub fn vextend_not_in(a: &mut Vec<EventRecord>, b: Vec<EventRecord>, set: &CommitSet)
-    ensures rv(final(a)@) == rv(old(a)@) + drop_commits(rv(b@), set.s@),
+pub fn vfilter_not_in<F: Fn(&EventRecord) -> bool>(b: Vec<EventRecord>, f: F, Ghost(cs): Ghost<ISet<Seq<u8>>>) -> (r: Vec<EventRecord>)
+    requires
+        forall|x: &EventRecord| #[trigger] f.requires((x,)),
+        forall|x: &EventRecord, k: bool| #[trigger] f.ensures((x,), k) ==> k == !cs.contains(x@.commit),
+    ensures rv(r@) == drop_commits(rv(b@), cs),
+{ unimplemented!() }
+/// R12: `$a.extend($b)` with `$b: Vec<EventRecord>` (or the filtered rows above) —
+/// `Vec::extend` appends the items in order
+#[verifier::external_body]
+pub fn vextend_vec(a: &mut Vec<EventRecord>, b: Vec<EventRecord>)
+    ensures rv(final(a)@) == rv(old(a)@) + rv(b@), final(a)@.len() == old(a)@.len() + b@.len(),
 { unimplemented!() }
 /// R12: `$v.clone()` on `Vec<EventRecord>` (`#[derive(Clone)] struct EventRecord`:
 /// field-wise): a vector of equal rows
@@ -198,12 +263,19 @@ pub fn vextend_not_in(a: &mut Vec<EventRecord>, b: Vec<EventRecord>, set: &Commi
 pub fn vclone_records(v: &Vec<EventRecord>) -> (r: Vec<EventRecord>)
     ensures rv(r@) == rv(v@), r@.len() == v@.len(),
 { unimplemented!() }
-/// R12: `$xs.iter().map(|r| r.commit()).collect::<HashSet<_>>()` and the by-value
-/// spelling `.map(|r| *r.commit())` — the set of commit hashes of the rows
-/// (`HashSet<&CommitHash>` / `HashSet<CommitHash>`, `Hash`/`Eq` derived on the 32 bytes)
+/// R12: `$xs.iter().map($f).collect::<HashSet<_>>()` — the set of what `$f` answers on the
+/// rows (`HashSet<&CommitHash>` for `|r| r.commit()`, `HashSet<CommitHash>` for the by-value
+/// spelling `|r| *r.commit()`; `Hash`/`Eq` are derived on the 32 bytes and `&T` hashes and
+/// compares as `T`, so both are the same set of byte strings).  The closure `$f` stays the
+/// repository's text: the unit wraps it in a closure whose `ensures` says that it answers
+/// the row's commit hash (Verus checks the real body against that); under that hypothesis
+/// the collected set is the set of commit hashes of the rows.
 pub struct CommitSet { pub s: Ghost<ISet<Seq<u8>>> }
 #[verifier::external_body]
-pub fn vcommit_set(xs: &Vec<EventRecord>) -> (r: CommitSet)
+pub fn vcommit_set_by<F: Fn(&EventRecord) -> CommitHash>(xs: &Vec<EventRecord>, f: F) -> (r: CommitSet)
+    requires
+        forall|x: &EventRecord| #[trigger] f.requires((x,)),
+        forall|x: &EventRecord, h: CommitHash| #[trigger] f.ensures((x,), h) ==> h.0@ == x@.commit,
     ensures r.s@ == commit_set(rv(xs@)),
 {
     unimplemented!()
@@ -213,6 +285,31 @@ impl CommitSet {
     #[verifier::external_body]
     pub fn is_subset(&self, other: &CommitSet) -> (r: bool)
         ensures r == self.s@.subset_of(other.s@),
+    { unimplemented!() }
+    /// `HashSet::is_superset` ("true if every value of other is in self")
+    #[verifier::external_body]
+    pub fn is_superset(&self, other: &CommitSet) -> (r: bool)
+        ensures r == other.s@.subset_of(self.s@),
+    { unimplemented!() }
+    /// `HashSet::is_disjoint` ("true if self has no elements in common with other")
+    #[verifier::external_body]
+    pub fn is_disjoint(&self, other: &CommitSet) -> (r: bool)
+        ensures r == self.s@.disjoint(other.s@),
+    { unimplemented!() }
+    /// `HashSet::contains` (the value is looked up by `Hash`/`Eq` of the 32 bytes)
+    #[verifier::external_body]
+    pub fn contains(&self, value: &CommitHash) -> (r: bool)
+        ensures r == self.s@.contains(value.0@),
+    { unimplemented!() }
+    /// `HashSet::is_empty`
+    #[verifier::external_body]
+    pub fn is_empty(&self) -> (r: bool)
+        ensures r == (self.s@ == ISet::<Seq<u8>>::empty()),
+    { unimplemented!() }
+    /// `HashSet::insert` ("returns whether the value was newly inserted")
+    #[verifier::external_body]
+    pub fn insert(&mut self, value: CommitHash) -> (r: bool)
+        ensures final(self).s@ == old(self).s@.insert(value.0@), r == !old(self).s@.contains(value.0@),
     { unimplemented!() }
 }
 /// R12: `$o.unwrap_or_default()` on `Option<Vec<TreeHash>>`
@@ -226,12 +323,34 @@ pub fn vunwrap_or_default(o: Option<Vec<TreeHash>>) -> (r: Vec<TreeHash>)
 pub fn vlast_copied<T: Copy>(v: &Vec<T>) -> (r: Option<T>)
     ensures r == (if v@.len() > 0 { Some(v@[v@.len() - 1]) } else { None }),
 { unimplemented!() }
-/// R12: `&$s[0..=$i]` followed by `.to_vec()` — the first `i + 1` items; the std
-/// slice index PANICS when `i >= len`: precondition = bounds obligation
+/// R12: `$v.first().copied()` on a vector of `Copy` items
 #[verifier::external_body]
-pub fn vprefix_to_vec<T: Copy>(s: &[T], i: usize) -> (r: Vec<T>)
-    requires i < s@.len(),
-    ensures r@ == s@.take(i + 1),
+pub fn vfirst_copied<T: Copy>(v: &Vec<T>) -> (r: Option<T>)
+    ensures r == (if v@.len() > 0 { Some(v@[0]) } else { None }),
+{ unimplemented!() }
+/// R12: `&$s[$a..=$b]` — the items `a ..= b`; the std slice index PANICS when `b >= len`
+/// (or `b == usize::MAX`) or `a > b + 1`: precondition = bounds obligation
+#[verifier::external_body]
+pub fn vslice_incl<T>(s: &[T], a: usize, b: usize) -> (r: &[T])
+    requires a as int <= b as int + 1, (b as int) < s@.len(),
+    ensures r@ == s@.subrange(a as int, b as int + 1),
+{ unimplemented!() }
+/// R12: `&$s[$a..$b]` — the items `a .. b`; the std slice index PANICS when `b > len` or
+/// `a > b`: precondition = bounds obligation
+#[verifier::external_body]
+pub fn vslice_excl<T>(s: &[T], a: usize, b: usize) -> (r: &[T])
+    requires a <= b, b <= s@.len(),
+    ensures r@ == s@.subrange(a as int, b as int),
+{ unimplemented!() }
+/// R12: `$s.to_vec()` on a slice of `Copy` items — a vector of the same items
+#[verifier::external_body]
+pub fn vto_vec<T: Copy>(s: &[T]) -> (r: Vec<T>)
+    ensures r@ == s@,
+{ unimplemented!() }
+/// R12: `for x in $v.iter()` — the references to the items, in order
+#[verifier::external_body]
+pub fn viter<T>(v: &Vec<T>) -> (r: Vec<&T>)
+    ensures r@.len() == v@.len(), forall|i: int| 0 <= i < v@.len() ==> *#[trigger] r@[i] == v@[i],
 { unimplemented!() }
 /// R12: `for x in $v.iter().rev()` — the references to the items, last first
 #[verifier::external_body]
